@@ -222,23 +222,24 @@ def make_config(seed: int, i: int, force: dict | None = None) -> dict:
             if cand:
                 row = rows[r.choice(cand)]
             else:
-                A = [int(r.random() < 0.7) for _ in alts]
                 rest = [b_ for b_ in alts if b_ not in u]
-                if rest and not any(A[alts.index(b_)] for b_ in rest):
-                    A[alts.index(r.choice(rest))] = 1
                 if not rest:
                     continue  # the unit is the whole choice set: it cannot be unavailable
+                A = [int(r.random() < 0.7) for _ in alts]
                 for grp in av_groups:
                     x = A[alts.index(grp[0])]
                     for b_ in grp:
                         A[alts.index(b_)] = x
                 A = [1 if b_ in always else x for b_, x in zip(alts, A)]
+                if not any(A[alts.index(b_)] for b_ in rest):
+                    for b_ in unit(r.choice(rest)):  # a whole sharing unit outside u becomes available
+                        if b_ not in u:
+                            A[alts.index(b_)] = 1
                 row = {'V': [round(r.uniform(-vband, vband), 4) for _ in alts], 'A': A}
                 rows.append(row)
             for b_ in u:
                 row['A'][alts.index(b_)] = 0
-            if not any(row['A']):  # cannot happen (cand / rest guarantee another available alternative)
-                row['A'][alts.index(a)] = 1
+            assert any(row['A'])  # cand / rest guarantee another available alternative
         nrows = len(rows)
     # insertion orders: utilities, availabilities, nest member lists, allocation dicts and the choice sets of the nest
     # objects are each written in their own order (None: everything in the order of `alts`, the way examples are written)
